@@ -206,6 +206,58 @@ fn run_job(j: &Job) -> (u64, u64, Vec<Viol>) {
     (nodes, cmp, viols)
 }
 
+/// one long deterministic stream, oracle at every prefix (exact counts + twin sketch)
+fn long_stream(k: usize, w: usize, d: usize, len: usize) -> (u64, u64, Vec<Viol>) {
+    const L: usize = 40;
+    let letters: Vec<El> = (0..L).map(|i| El { id: i as u8, code: i as u64 * 1_000_003 + 17 }).collect();
+    let mut heap: CMSHeap<El> = CMSHeap::new(k, CountMinSketch::with_params(w, d));
+    let mut twin: CountMinSketch<El> = CountMinSketch::with_params(w, d);
+    let mut truth = vec![0u64; L];
+    let mut e = 0u64;
+    let mut viols = vec![];
+    let mut cmp = 0u64;
+    for i in 0..len {
+        // Zipf-like: letter j appears with period ~ (j+1); blocks of a rising newcomer every 97 steps
+        let l = if i % 97 < 12 { (i / 97) % L } else { (0..L).find(|&j| (i / (j + 1)) % 2 == 0 && i % (j + 1) == 0).unwrap_or(i % L) };
+        let r = mccore::panics::catch(|| heap.add(letters[l].clone()));
+        let mk = |what: String| Viol { property: "C10".into(), signature: format!("cmsheap(k={},{}x{}) long stream: {}", k, w, d, what.split(':').next().unwrap_or("")), message: format!("k={}, sketch {}x{}, deterministic stream, prefix {}: {}", k, w, d, i + 1, what), replay: json!({"structure": "CMSHeap", "k": k, "sketch": [w, d], "stream": "letter(i) = if i%97<12 {(i/97)%40} else first j with (i/(j+1))%2==0 && i%(j+1)==0, else i%40", "prefix": i + 1}) };
+        if let Err(p) = r {
+            viols.push(mk(format!("add panics: {}", p)));
+            break;
+        }
+        twin.add(&letters[l]);
+        truth[l] += 1;
+        for x in 0..L {
+            e = e.max((twin.query_point(&letters[x]) as u64).saturating_sub(truth[x]));
+        }
+        let res: Vec<u8> = heap.iter().map(|x| x.id).collect();
+        let distinct = truth.iter().filter(|&&t| t > 0).count();
+        let mut sorted = res.clone();
+        sorted.sort_unstable();
+        sorted.dedup();
+        cmp += 1;
+        if sorted.len() != res.len() || res.len() != k.min(distinct) {
+            viols.push(mk(format!("result size: iter() yields {:?} with k = {} and {} distinct elements seen", res, k, distinct)));
+            break;
+        }
+        let mut bad = None;
+        for x in 0..L {
+            if truth[x] > 0 && !res.contains(&(x as u8)) {
+                let lim = truth[x].saturating_sub(e);
+                let others = (0..L).filter(|&y| y != x && truth[y] >= lim).count();
+                if others < k {
+                    bad = Some(format!("missing heavy element: letter {} (true {}) is missing, only {} others reach {} - E (E = {})", x, truth[x], others, truth[x], e));
+                }
+            }
+        }
+        if let Some(b) = bad {
+            viols.push(mk(b));
+            break;
+        }
+    }
+    (len as u64, cmp, viols)
+}
+
 fn main() {
     let args = parse_args();
     let mut run = Runner::new("C10", &args.tier, "model_checking");
@@ -255,9 +307,12 @@ fn main() {
             jobs.push(Job { k, w, d, big: Some(codes), codes: [0; 4], collision_free: cf, len: if thorough { 4 } else { 3 }, label: format!("k={},{}x{},alphabet {} letters after filling the heap", k, w, d, n) });
         }
     }
+    // long deterministic streams (hundreds of adds, large counts): Zipf-like and block patterns over 40
+    // letters on small sketches; same oracle at every prefix
+    let long_res = par_map(&[(2usize, 8usize, 2usize), (5, 16, 3), (3, 1, 1), (8, 64, 4)], n_threads(), |&(k, w, d)| long_stream(k, w, d, if thorough { 6000 } else { 1500 }));
     let res = par_map(&jobs, n_threads(), run_job);
     let (mut nodes, mut cmp) = (0u64, 0u64);
-    for (n, c, vs) in res {
+    for (n, c, vs) in res.into_iter().chain(long_res) {
         nodes += n;
         cmp += c;
         for v in vs {
